@@ -217,7 +217,7 @@ theorem merge_cell_apply {S : Schema} {fx : Fixes} (K : KeyOrder S) {o : MergeOp
     (hseq : (seqEff S t src (look S L t)).isSome = true) :
     ∃ L1 L2 L2', applyNode S fx n L hp none t = .ok L1 ∧ applyNode S fx n L1 hp none src = .ok L2 ∧
       (if (isRedundant S none m).2 then Except.ok L else applyNode S fx n L hp none (isRedundant S none m).1) = .ok L2' ∧
-      normL L2' = normL L2 := by
+      normL13 L2' = normL13 L2 := by
   have hdom : ∀ d : DNode, d.isTerm = true → d.sid = t.sid → Dom S d := fun d hd hs =>
     ⟨by rw [hs]; exact isUserOrd_of_leaf hleaf, by rw [hs]; exact isDupInst_of_leaf hleaf,
       by rw [hd, hs, isTerm_of_leaf hleaf]⟩
@@ -249,7 +249,7 @@ theorem merge_cell_apply {S : Schema} {fx : Fixes} (K : KeyOrder S) {o : MergeOp
         rw [hloc2 q hq (by rw [hmatch src hss]; exact hcq), hloc1 q hq hcq]
       -- lists that agree with `L2` everywhere else and (up to normN) at the place of `t`
       have hfin : ∀ L2', goodT S L2' = true → (∀ q, Dom S q → matchP S t q = false → look S L2' q = look S L q) →
-          (look S L2' t).map normN = e2.map normN → normL L2' = normL L2 := by
+          (look S L2' t).map normN = e2.map normN → normL13 L2' = normL13 L2 := by
         intro L2' hg' hoth hat
         apply normL_eq_of_look K (goodT_goodL hg') (goodT_goodL hg2)
         intro q hq
